@@ -328,4 +328,41 @@ Section More.
     split; [apply wf_set_last_col, W1|]. split; [exact B1|]. split; [exact I1|].
     split; [cbn [set_last_col idx]; rewrite pos_inc_idx, Hm; reflexivity|]. split; [exact Hm|exact O].
   Qed.
+  (* ---------------------------------------------------------------- positions recorded in tokens (C20) *)
+  (* the side condition of Lex_dec_wf at a position reached by `++` from a well-formed one *)
+  Definition dec_side (p : Position) : Prop :=
+    List.nth (Nat.pred (idx p)) (buf p) 0%N <> NL \/ last_col p = (1 + Z.of_nat (since_nl (firstn (Nat.pred (idx p)) (buf p))))%Z.
+  Lemma just_inc_dec_side p p' ok : just_inc p p' ok -> idx p' <> 0 /\ dec_side p'.
+  Proof.
+    intros (p1 & W1 & Hm & I1 & E1 & O). subst p'. rewrite pos_inc_idx, Hm. split; [lia|].
+    unfold dec_side. rewrite pos_inc_buf, pos_inc_idx, Hm. cbn [Nat.pred].
+    destruct (N.eqb (List.nth (idx p1) (buf p1) 0%N) NL) eqn:E.
+    - right. unfold pos_inc. rewrite Hm, E. cbn [last_col]. destruct W1 as (_ & _ & Wc). exact Wc.
+    - left. apply N.eqb_neq. exact E.
+  Qed.
+
+  (* an identifier token carries the line/col of the well-formed position it starts at, and (unless back-quoted) its text is the
+     bytes from there to the cursor *)
+  Lemma fine_Id_token validate :
+    fine (@Id U A K validate)
+         (fun o s s' => forall text l1 c1, o = Some (TId text l1 c1) ->
+            exists st, wf_pos st /\ buf st = buf (pos s) /\ idx (pos s) <= idx st /\ idx st <= idx (pos s') /\ l1 = line st /\ c1 = col st /\
+                       ((deref st =? 96)%N = false -> text = pos_str st (pos s'))).
+  Proof.
+    intros s W. pose proof (ext_refl s W) as E. unfold Id.
+    step (fine_SkipWS (U:=U) A false). step_pos. step fine_Id_progress. destruct a0; [|done_ret; congruence].
+    specialize (R0 eq_refl).
+    assert (Hst : wf_pos (pos s0) /\ buf (pos s0) = buf (pos s) /\ idx (pos s) <= idx (pos s0)).
+    { match goal with H : ext s s0 |- _ => split; [apply (ext_wf _ _ H)|split; [apply (ext_buf _ _ H)|apply (ext_idx _ _ H)]] end. }
+    step_pos. apply post_bind.
+    match goal with |- context [if ?c then throw_at _ else ret tt] => destruct c end; [exact I|].
+    apply post_ret.
+    destruct (classify K _); [done_ret; congruence|].
+    destruct (deref (pos s0) =? 96)%N eqn:Eq.
+    - cbn [pos_sub]. destruct (pos_dec (pos s1)) eqn:Ed; [|apply pos_dec_none in Ed; lia].
+      done_ret. intros text l1 c1 Ht. inversion Ht; subst. exists (pos s0). destruct Hst as (Hw & Hb & Hi).
+      split; [exact Hw|]. split; [exact Hb|]. split; [exact Hi|]. split; [lia|]. split; [reflexivity|]. split; [reflexivity|]. congruence.
+    - done_ret. intros text l1 c1 Ht. inversion Ht; subst. exists (pos s0). destruct Hst as (Hw & Hb & Hi).
+      split; [exact Hw|]. split; [exact Hb|]. split; [exact Hi|]. split; [lia|]. split; [reflexivity|]. split; [reflexivity|]. reflexivity.
+  Qed.
 End More.
